@@ -111,7 +111,7 @@ def canon_real_multi(roots, nnx, mods, vts):
         return ('ref', idx_shared[id(x)])
       idx_shared[id(x)] = len(idx_shared)
       md = x.get_metadata() if hasattr(x, 'get_metadata') else {}
-      return (rev_v.get(type(x), type(x).__name__), idx_shared[id(x)], int(np.asarray(x.value)), 1 if md.get('tag') == 'm1' else 0)
+      return (rev_v.get(type(x), type(x).__name__), idx_shared[id(x)], c03.val_of(x.value, type(x)), 1 if md.get('tag') == 'm1' else 0)
     if isinstance(x, nnx.Module):
       if id(x) in idx_shared:
         return ('ref', idx_shared[id(x)])
@@ -273,7 +273,7 @@ def _total(nnx, root):
 
 
 def main(chk):
-  nnx, mods, vts = c03.setup_types()
+  nnx, mods, vts = c03.setup_types(hook=False)
   mc = tlc.require_ok(tlc.run('NnxUpdateCtx', 'NnxUpdateCtx_mc.cfg', workers=16, timeout=1800), 'NnxUpdateCtx MC')
   chk.add_tlc(mc, 'NnxUpdateCtx MC (small)')
   tlc.require_actions(mc, ['UBuild', 'Choose', 'EndScript', 'Call'])
